@@ -586,7 +586,10 @@ class G:
                            # links between objects: a chain's intermediate result is ANOTHER object
                            Func('接', ['另'], [ExprS(Assign(This('下'), Var('另'))), Ret(Var('另'))]),
                            Func('取下', [], [Ret(This('下'))]),
-                           Func('取横', [], [Ret(This('横'))])]))
+                           Func('取横', [], [Ret(This('横'))])],
+                          # 何为 … ？ blocks are part of the grammar (they are compiled and stored; nothing reads them: the name
+                          # stays an unknown property)
+                          getters=([Func('和', [], [Ret(Bin('+', This('横'), Num('1')))], getter=True)] if rng.random() < 0.4 else [])))
         if rng.random() < 0.7:
             body.append(Func('点', ['初横'], [ExprS(Assign(This('横'), Var('初横')))], ctor=True))
             ctor_ar = 1
@@ -640,7 +643,7 @@ class G:
                 elif k < 0.9:
                     main.append(ExprS(Call('显示', [MCall(Var(o), [(rng.choice(['无此法', '移']), [])])])))
                 else:
-                    main.append(ExprS(Call('显示', [Prop(Var(o), rng.choice(['无此性', '横']))])))
+                    main.append(ExprS(Call('显示', [Prop(Var(o), rng.choice(['无此性', '横', '和']))])))
                 main.append(ExprS(Call('显示', [Prop(Var(x), '横') for x in objs] + [Prop(Var(x), '竖') for x in objs] +
                                        [Prop(Var(x), '格') for x in objs] + [Prop(Var(x), '表') for x in objs])))
             else:
